@@ -51,7 +51,8 @@ iteration:
 			if jsonTag == "-" {
 				continue
 			}
-			if jsonTag == "" {
+			// (a tag that gives options but no name, `json:",omitempty"`, leaves the field embedded)
+			if name, _, _ := strings.Cut(jsonTag, ","); name == "" {
 				fields = appendFields(fields, index, f.Type, ancestors...)
 				continue iteration
 			}
